@@ -31,6 +31,11 @@ type giTr struct {
 	notes []string
 	names map[types.Object]string
 	used  map[string]int
+	// unexported helper functions of the package called from GetInfo, rendered as local functions
+	// (`let h := fun … => …` in front of the body, so that unfolding GetInfo's rendering unfolds them too)
+	helpers map[*types.Func]string
+	prelude []string
+	busy    map[*types.Func]bool
 }
 
 type giUnsupported struct{ text string }
@@ -95,8 +100,176 @@ func (t *giTr) str(e ast.Expr) (string, error) {
 			}
 			return fmt.Sprintf("(Arch.lower %s)", a), nil
 		}
+		if h, kind := t.helper(x); h != "" && kind == "str" {
+			a, err := t.str(x.Args[0])
+			if err != nil {
+				return "", err
+			}
+			return fmt.Sprintf("(%s %s)", h, a), nil
+		}
 	}
 	return "", giUnsupported{exprText(e)}
+}
+
+// helper recognises a call of an unexported function of the package with one parameter and one
+// result — (string) string, (string) bool or (*Info) bool — renders the function once as a local
+// Lean function and returns its name and kind ("str": String → String, "boolS": String → Option
+// Bool, "boolI": Option ArchRow → Option Bool).
+func (t *giTr) helper(c *ast.CallExpr) (name, kind string) {
+	id, ok := c.Fun.(*ast.Ident)
+	if !ok || len(c.Args) != 1 {
+		return "", ""
+	}
+	fn, ok := t.p.TypesInfo.Uses[id].(*types.Func)
+	if !ok || fn.Pkg() != t.p.Types || fn.Exported() {
+		return "", ""
+	}
+	sig := fn.Type().(*types.Signature)
+	if sig.Recv() != nil || sig.Params().Len() != 1 || sig.Results().Len() != 1 || sig.Variadic() {
+		return "", ""
+	}
+	pt, rt := sig.Params().At(0).Type().String(), sig.Results().At(0).Type().String()
+	switch {
+	case pt == "string" && rt == "string":
+		kind = "str"
+	case pt == "string" && rt == "bool":
+		kind = "boolS"
+	case isInfoPtr(pt) && rt == "bool":
+		kind = "boolI"
+	default:
+		return "", ""
+	}
+	if n, done := t.helpers[fn]; done {
+		return n, kind
+	}
+	if t.busy[fn] {
+		return "", "" // recursion
+	}
+	fd := funcDecl(t.p, fn.Name())
+	if fd == nil || fd.Body == nil || len(fd.Type.Params.List) != 1 || len(fd.Type.Params.List[0].Names) != 1 {
+		return "", ""
+	}
+	t.busy[fn] = true
+	defer delete(t.busy, fn)
+	// render the body with its own view of the variables
+	saved := t.snapshot()
+	savedB := t.b
+	t.b = strings.Builder{}
+	param := fd.Type.Params.List[0].Names[0]
+	pn := t.rebind(param)
+	ptLean := map[string]string{"str": "String", "boolS": "String", "boolI": "Option Gen.ArchRow"}[kind]
+	nNotes := len(t.notes)
+	t.helperBody(fd.Body.List, 3, kind)
+	body := t.b.String()
+	t.b = savedB
+	t.restore(saved)
+	if len(t.notes) > nNotes {
+		return "", "" // the helper is outside the subset: the call stays unsupported (notes explain why)
+	}
+	hn := "h_" + leanTargetIdent(fn.Name())
+	t.prelude = append(t.prelude, fmt.Sprintf("  let %s := fun (%s : %s) =>  -- func %s\n%s", hn, pn, ptLean, fn.Name(), body))
+	t.helpers[fn] = hn
+	return hn, kind
+}
+
+// helperBody renders the statements of a helper as one expression: a String for kind "str", an
+// `Option Bool` for the boolean kinds.  Subset: `if c { … } [else { … }]` with returns on every path,
+// switch (desugared), string assignments, `return e`.
+func (t *giTr) helperBody(list []ast.Stmt, indent int, kind string) {
+	if len(list) == 0 {
+		t.notes = append(t.notes, "GetInfo helper: a path ends without return")
+		t.line(indent, "default")
+		return
+	}
+	st, rest := list[0], list[1:]
+	if sw, isSwitch := st.(*ast.SwitchStmt); isSwitch {
+		if is, ok := desugarSwitch(sw); ok {
+			st = is
+		}
+	}
+	switch x := st.(type) {
+	case *ast.ReturnStmt:
+		if len(x.Results) == 1 {
+			if kind == "str" {
+				if v, err := t.str(x.Results[0]); err == nil {
+					t.line(indent, "%s", v)
+					return
+				}
+			} else if c, err := t.cond(x.Results[0]); err == nil {
+				t.line(indent, "%s", c)
+				return
+			}
+		}
+		t.notes = append(t.notes, "GetInfo helper: return outside the subset: "+srcText(t.p, x))
+		t.line(indent, "default")
+	case *ast.BlockStmt:
+		t.helperBody(append(append([]ast.Stmt{}, x.List...), rest...), indent, kind)
+	case *ast.AssignStmt:
+		if len(x.Lhs) == 1 && len(x.Rhs) == 1 {
+			if id, ok := x.Lhs[0].(*ast.Ident); ok && t.typeOf(id) == "string" {
+				if v, err := t.str(x.Rhs[0]); err == nil {
+					t.line(indent, "let %s := %s", t.rebind(id), v)
+					t.helperBody(rest, indent, kind)
+					return
+				}
+			}
+		}
+		t.notes = append(t.notes, "GetInfo helper: assignment outside the subset: "+srcText(t.p, x))
+		t.line(indent, "default")
+	case *ast.IfStmt:
+		if x.Init != nil {
+			t.notes = append(t.notes, "GetInfo helper: if-init outside the subset")
+			t.line(indent, "default")
+			return
+		}
+		c, err := t.cond(x.Cond)
+		if err != nil {
+			t.notes = append(t.notes, "GetInfo helper: "+err.Error())
+			t.line(indent, "default")
+			return
+		}
+		thenList := append([]ast.Stmt{}, x.Body.List...)
+		if !terminates(thenList) {
+			thenList = append(thenList, rest...)
+		}
+		var elseList []ast.Stmt
+		switch e := x.Else.(type) {
+		case nil:
+			elseList = rest
+		case *ast.BlockStmt:
+			elseList = append([]ast.Stmt{}, e.List...)
+			if !terminates(elseList) {
+				elseList = append(elseList, rest...)
+			}
+		case *ast.IfStmt:
+			elseList = []ast.Stmt{e}
+		}
+		saved := t.snapshot()
+		if kind == "str" {
+			// conditions inside a string helper are comparisons of strings: they cannot panic
+			t.line(indent, "(match %s with", c)
+			t.line(indent, "| some true =>")
+			t.helperBody(thenList, indent+2, kind)
+			t.restore(saved)
+			t.line(indent, "| _ =>")
+			t.helperBody(elseList, indent+2, kind)
+			t.restore(saved)
+			t.line(indent, ")")
+		} else {
+			t.line(indent, "(match %s with", c)
+			t.line(indent, "| none => none")
+			t.line(indent, "| some true =>")
+			t.helperBody(thenList, indent+2, kind)
+			t.restore(saved)
+			t.line(indent, "| some false =>")
+			t.helperBody(elseList, indent+2, kind)
+			t.restore(saved)
+			t.line(indent, ")")
+		}
+	default:
+		t.notes = append(t.notes, "GetInfo helper: statement outside the subset: "+srcText(t.p, st))
+		t.line(indent, "default")
+	}
 }
 
 func calleeFullName(p *packages.Package, c *ast.CallExpr) string {
@@ -138,7 +311,23 @@ func (t *giTr) nat(e ast.Expr) (string, error) {
 
 // cond renders a condition as `Option Bool` (none = the evaluation panics).
 func (t *giTr) cond(e ast.Expr) (string, error) {
+	if tv, ok := t.p.TypesInfo.Types[e]; ok && tv.Value != nil && tv.Value.Kind() == constant.Bool {
+		return fmt.Sprintf("(some %v)", constant.BoolVal(tv.Value)), nil
+	}
 	switch x := ast.Unparen(e).(type) {
+	case *ast.CallExpr:
+		if h, kind := t.helper(x); h != "" {
+			switch kind {
+			case "boolS":
+				if a, err := t.str(x.Args[0]); err == nil {
+					return fmt.Sprintf("(%s %s)", h, a), nil
+				}
+			case "boolI":
+				if id, ok := ast.Unparen(x.Args[0]).(*ast.Ident); ok && isInfoPtr(t.typeOf(id)) {
+					return fmt.Sprintf("(%s %s)", h, t.ident(id, false)), nil
+				}
+			}
+		}
 	case *ast.Ident:
 		if t.typeOf(x) == "bool" {
 			if x.Name == "true" || x.Name == "false" {
@@ -292,6 +481,15 @@ func (t *giTr) stmts(list []ast.Stmt, indent int) {
 		return
 	}
 	st, rest := list[0], list[1:]
+	if sw, isSwitch := st.(*ast.SwitchStmt); isSwitch {
+		if is, ok := desugarSwitch(sw); ok {
+			st = is
+			if blk, isBlk := is.(*ast.BlockStmt); isBlk && len(blk.List) == 0 {
+				t.stmts(rest, indent)
+				return
+			}
+		}
+	}
 	switch x := st.(type) {
 	case *ast.ReturnStmt:
 		if len(x.Results) != 2 {
@@ -327,6 +525,16 @@ func (t *giTr) stmts(list []ast.Stmt, indent int) {
 		}
 		if len(x.Lhs) == 1 && len(x.Rhs) == 1 && (x.Tok == token.ASSIGN || x.Tok == token.DEFINE) {
 			if id, ok := x.Lhs[0].(*ast.Ident); ok {
+				// v := arches[key]  (nil when the key is absent)
+				if ix, isIx := x.Rhs[0].(*ast.IndexExpr); isIx && isInfoPtr(t.typeOf(id)) {
+					if m, isID := ix.X.(*ast.Ident); isID && m.Name == "arches" && t.p.TypesInfo.ObjectOf(m) != nil && t.p.TypesInfo.ObjectOf(m).Parent() == t.p.Types.Scope() {
+						if key, err := t.str(ix.Index); err == nil {
+							t.line(indent, "let (%s, _) := Arch.lookupArch %s  -- %s", t.rebind(id), key, srcText(t.p, x))
+							t.stmts(rest, indent)
+							return
+						}
+					}
+				}
 				switch {
 				case t.typeOf(id) == "string":
 					if v, err := t.str(x.Rhs[0]); err == nil {
@@ -488,12 +696,19 @@ func genGetInfo(host *target, facts map[string]interface{}) error {
 		fd.Type.Results == nil || len(fd.Type.Results.List) != 2 || exprText(fd.Type.Results.List[0].Type) != "*Info" || exprText(fd.Type.Results.List[1].Type) != "error":
 		stub("signature outside the subset")
 	default:
-		t := &giTr{p: p, names: map[types.Object]string{}, used: map[string]int{}}
+		t := &giTr{p: p, names: map[types.Object]string{}, used: map[string]int{}, helpers: map[*types.Func]string{}, busy: map[*types.Func]bool{}}
 		param := fd.Type.Params.List[0].Names[0]
 		pn := t.rebind(param)
-		fmt.Fprintf(&t.b, "/-- `GetInfo` (arch/info.go); `goarch` stands for runtime.GOARCH -/\ndef getInfoSkel (goarch : String) (name : String) : Arch.Res :=\n  let %s := name\n", pn)
 		t.stmts(fd.Body.List, 1)
 		notes = append(notes, t.notes...)
+		body := t.b.String()
+		t.b = strings.Builder{}
+		fmt.Fprintf(&t.b, "/-- `GetInfo` (arch/info.go); `goarch` stands for runtime.GOARCH -/\ndef getInfoSkel (goarch : String) (name : String) : Arch.Res :=\n")
+		for _, h := range t.prelude {
+			t.b.WriteString(h)
+		}
+		fmt.Fprintf(&t.b, "  let %s := name\n", pn)
+		t.b.WriteString(body)
 		b.WriteString(t.b.String())
 		b.WriteString("\n")
 		facts["getInfoSkeleton"] = t.b.String()
